@@ -93,6 +93,28 @@ CHECKS.update({
         technique='Lean 4 proof of decision logic + exhaustive correspondence',
         design='6/C17'),
 })
+CHECKS.update({
+    'C01': dict(
+        level='translation_validation',
+        text='A Lean character-level model of the whole scannerless grammar (pyparsing primitives, every rule of '
+             'pydbml/definitions with its parse action, error stops, build_database) is tied to the real parser by differential '
+             'testing on the corpus and on documents written by an independent speller under random spelling choices; the '
+             'parser-independent oracle is that the parsed content equals the content the speller was given (nothing dropped, '
+             'nothing invented, order kept) and that spellings (incl. inline/short/block Ref and addressing) do not matter. '
+             'Named departures from WF are replayed as known findings. The Lean theorem C01_faithful over the model is staged.',
+        note='trusted: hand-written model tied by sampling; the speller; theorem about parse∘spell not yet proved',
+        technique='Lean parser model + differential correspondence + speller oracle (theorem staged)',
+        design='6/C01'),
+    'C02': dict(
+        level='translation_validation',
+        text='Oracle on the real code: content(parse(db.dbml)) == content(db) and the 2nd and 3rd renderings are byte-identical, '
+             'for databases parsed from spelled documents, built through the public classes from Expressible values, the corpus, '
+             'and wild API-built ones whose named reason outside Expressible must be a listed finding. Correspondence: the Lean '
+             'DBML renderer produces the same text and the Lean parser model reads it back to the same content.',
+        note='trusted: hand-written models tied by sampling; Expressible predicate (harness/expressible.py); round-trip theorem staged',
+        technique='Lean renderer+parser models + differential correspondence + round-trip oracle (theorem staged)',
+        design='6/C02'),
+})
 UNDER_CONSTRUCTION = 'check under construction (model and harness being built; see DESIGN.md)'
 
 
